@@ -151,7 +151,7 @@ def compile (d : Dialect) (t : TRef) (c : String) : Construct → Except Err Stm
       | .ok s => .ok (.default t c (some s))
       | .error e => .error e
     | none => .ok (.default t c none)
-  | .execDropDefault => .ok (.mssqlDropDefault t c)
+  | .execDropDefault => .ok (.mssqlDropDefault t t c)
   | .dropConstraint nm =>
     match nm with
     | some n => .ok (.dropConstraint t n)
